@@ -42,4 +42,9 @@ def documentedSuffixes : List (Str × Str) :=
   [("n".toList, "nightly".toList), ("nightly".toList, "nightly".toList), ("t".toList, "test".toList),
    ("test".toList, "test".toList), ("ci".toList, "ci".toList), ("d".toList, "development".toList)]
 
+/-- the documented compose types and the suffix each is written with -/
+def documentedEncoder : List (Str × Str) :=
+  [("production".toList, []), ("nightly".toList, ".n".toList), ("test".toList, ".t".toList), ("ci".toList, ".ci".toList),
+   ("development".toList, ".d".toList)]
+
 end PM.Spec
